@@ -337,6 +337,18 @@ def runLitSeq (kv : KV) : String :=
       | some e => (out ++ s!" CERR:{errName e}", some (true, cnt))) ("", none)
   out ++ close cur ++ " sane=1"
 
+/-- fileseq: `files=<name>:<depth>,…` through one compiler; specification: every file starts from an empty include stack -/
+def runFileSeq (kv : KV) : String :=
+  let files := ((getD kv "files" "").splitOn ",").filter (· ≠ "") |>.zipIdx.map fun (t, k) =>
+    match t.splitOn ":" with
+    | [n, d] => (n, (List.range (d.toNat?.getD 0)).map fun i => s!"{k}_{i + 1}")
+    | _ => (t, [])
+  let outs := addFileSeq Guards.spec (getNat kv "L" maxIncludeDepth) true [] files
+  let failed := outs.any (·.isSome)
+  let toks := outs.map fun o => match o with | none => " OK" | some e => s!" CERR:{errName e}"
+  let total := files.foldl (fun a f => a + 1 + f.2.length) 0
+  String.join toks ++ (if failed then " RX" else s!" R{total}") ++ " sane=1"
+
 /-- cases with `nest=`: the configured limits as read back after the nested `yr_initialize()`/`yr_finalize()` — unchanged -/
 def cfgPrefix (kv : KV) : String :=
   if (get? kv "nest").isNone then "" else
@@ -384,6 +396,7 @@ def handle (line : String) : String :=
       | "compile" => cfgPrefix kv ++ runCompile kv
       | "scan" => cfgPrefix kv ++ runScan kv
       | "litseq" => runLitSeq kv
+      | "fileseq" => runFileSeq kv
       | _ => " UNMODELLED"
     id ++ body
   | _ => ""
